@@ -10,8 +10,8 @@ CONSTANTS
   Fns = {}
   Rich = FALSE
   TextLen = 4
-  Chars = {97, 95, 49, 45, 46, 112, 116, 34, 92, 117, 123, 125, 40, 41, 91, 93, 61, 44, 35, 32, 10, 233}
+  Chars = {97, 49, 45, 46, 112, 116, 34, 92, 117, 123, 40, 41, 91, 93, 61, 44, 35, 32, 10, 233}
   IntParts = {}
   Sample = 1
-INVARIANTS InvLexTotal InvRelex InvReadRender InvCommentsAreBlank
+INVARIANTS InvLexTotal InvRelex InvReadRender InvCommentsAreBlank InvFormatText
 CHECK_DEADLOCK FALSE
